@@ -297,7 +297,7 @@ CLAIMS = {
              "input); skipped_lexical_errors_dropped; directive_error_drops_lexer_message (repaired in 59e1067). From TEXT (no lexing "
              "hypothesis): prep_selects_text, unterminated_reported_text, wellnested_no_eof_error_text for every rendered arrangement "
              "(directives on lines of their own, arbitrary well-formed LexSpec tokens, blanks, comments and an invalid string as "
-             "payload; Lemmas/PrepRender.lean proves the lexer model splits the rendering into exactly that arrangement). Tied to preprocessor.rs by exhaustive correspondence over all directive sequences <= 4 (quick) / <= 6 "
+             "payload; Lemmas/PrepRender.lean proves the lexer model splits the rendering into exactly that arrangement). Tied to preprocessor.rs by exhaustive correspondence over all directive sequences <= 4 (quick) / <= 7 "
              "(thorough) over two macro names and a marker, plus random nestings checked through the IDE layer.",
         note="Model: Prep.lean/PrepSpec.lean vs preprocessor.rs. The hypothesis-carrying theorems (absToks text = items.flatten) remain for "
              "arbitrary texts; for rendered arrangements the hypothesis is a theorem (Render.SItems.absToks_render).",
